@@ -396,6 +396,7 @@ pub fn run_history_property(a: &WorkerArgs) -> WorkerReport {
     let mut failures_left = 3;
     let mut leg = 0u32;
     let mut remaining = a.cases;
+    #[cfg(feature = "std")]
     if prop == 6 && a.worker % 100 == 0 {
         if let Some(f) = crate::special::zst_sorted_battery() {
             let path = format!("{}/{}-zst-sorted.json", a.replay_dir, pid);
@@ -675,6 +676,7 @@ pub fn capacity_twin_check(case: &Case) -> Option<Failure> {
 
 /// Replay one case file under a property; returns the failure if it still fails.
 pub fn replay_history(prop: u8, text: &str, strict_known: &[KnownFinding]) -> Result<Option<Failure>, String> {
+    #[cfg(feature = "std")]
     if prop == 6 && text.contains("zst_sorted_battery") {
         return Ok(crate::special::zst_sorted_battery());
     }
